@@ -224,6 +224,16 @@ func (s *FakeStream) HadDeadline() bool {
 	return s.DeadlineSet
 }
 
+// Deadline returns the deadline the code under test set (zero time: none).
+func (s *FakeStream) Deadline() time.Time {
+	s.mu.Lock()
+	defer s.mu.Unlock()
+	if !s.DeadlineSet {
+		return time.Time{}
+	}
+	return s.deadline
+}
+
 // Written returns what the code under test wrote.
 func (s *FakeStream) Written() []byte {
 	s.mu.Lock()
